@@ -59,6 +59,20 @@ def match(tpl, act, holes, where):
             if f in ('ctx', 'type_comment', 'kind', 'lineno', 'col_offset', 'end_lineno', 'end_col_offset'):
                 continue
             match(getattr(tpl, f, None), getattr(act, f, None), holes, f"{where}.{f}")
+    elif isinstance(tpl, list) and any(_is_stmts_hole(x) for x in tpl):
+        # one statement-level wildcard: HOLE_STMTS_<id> stands for any run of statements (captured, not compared)
+        k = next(i for i, x in enumerate(tpl) if _is_stmts_hole(x))
+        pre, post = tpl[:k], tpl[k + 1:]
+        if any(_is_stmts_hole(x) for x in post):
+            raise GenError(f"{where}: more than one statement wildcard in one block of the template")
+        if len(act) < len(pre) + len(post):
+            raise GenError(f"{where}: fewer statements than the template requires")
+        for i, (a, b) in enumerate(zip(pre, act[:len(pre)])):
+            match(a, b, holes, f"{where}[{i}]")
+        tail = act[len(act) - len(post):] if post else []
+        for i, (a, b) in enumerate(zip(post, tail)):
+            match(a, b, holes, f"{where}[-{len(post) - i}]")
+        holes[tpl[k].value.id[5:]] = act[len(pre):len(act) - len(post)]
     elif isinstance(tpl, list):
         if len(tpl) != len(act):
             raise GenError(f"{where}: expected {len(tpl)} items, found {len(act)} "
@@ -68,6 +82,10 @@ def match(tpl, act, holes, where):
     else:
         if tpl != act:
             raise GenError(f"{where}: expected {tpl!r}, found {act!r}")
+
+
+def _is_stmts_hole(x):
+    return isinstance(x, ast.Expr) and isinstance(x.value, ast.Name) and x.value.id.startswith('HOLE_STMTS_')
 
 
 def safe_unparse(n):
@@ -296,7 +314,10 @@ kernel('G7_auto', 'bisturi/descriptor.py',
 
 kernel('G9_errors', 'bisturi/packet.py', [('PacketError', '__init__'), ('PacketError', 'add_parent_field_and_packet'), ('PacketError', '__str__'), ('Packet', 'unpack'), ('Packet', 'unpack_impl'), ('Packet', 'pack'), ('Packet', 'pack_impl'), ('Packet', 'assert_consistency')], 'ErrorsGen', {}, extra='Definition errors_template_matched : bool := true.')
 kernel('G10_eq', 'bisturi/packet.py', [('Packet', '__init__'), ('Packet', '__eq__'), ('Packet', '__repr__')], 'EqGen', {}, extra='Definition eq_template_matched : bool := true.')
-kernel('G11_codegen', 'bisturi/codegen.py', [('CodeGenerator', '__init__'), ('CodeGenerator', 'generate_code'), ('CodeGenerator', 'generate_unrolled_code_for_descriptor_sync'), ('CodeGenerator', 'generate_code_for_fixed_fields'), ('CodeGenerator', 'generate_code_for_fixed_fields_with_struct_code'), ('CodeGenerator', 'generate_code_for_variable_fields'), ('CodeGenerator', 'generate_code_for_fixed_fields_without_struct_code'), ('CodeGenerator', 'generate_code_for_loop_pack'), ('CodeGenerator', 'generate_code_for_loop_unpack'), (None, 'indent')], 'CodegenGen', {}, extra='Definition codegen_template_matched : bool := true.')
+kernel('G13_deferred', 'bisturi/deferred.py', [(None, 'if_true_then_else'), (None, 'chooses'), (None, 'compile_expr'), (None, 'exec_compiled_expr'), (None, 'compile_expr_into_callable'), (None, '_defer_method')], 'DeferredGen', {}, extra='Definition deferred_template_matched : bool := true.')
+kernel('G14_cache', 'bisturi/codegen.py', [('CodeGenerator', 'generate_code')], 'CacheGen', {'STMTS_build': H(None, [], {}, None)},
+       extra='Definition cache_template_matched : bool := true.')
+kernel('G11_codegen', 'bisturi/codegen.py', [('CodeGenerator', '__init__'), ('CodeGenerator', 'generate_code'), ('CodeGenerator', 'generate_unrolled_code_for_descriptor_sync'), ('CodeGenerator', 'generate_code_for_fixed_fields'), ('CodeGenerator', 'generate_code_for_fixed_fields_with_struct_code'), ('CodeGenerator', 'generate_code_for_variable_fields'), ('CodeGenerator', 'generate_code_for_fixed_fields_without_struct_code'), ('CodeGenerator', 'generate_code_for_loop_pack'), ('CodeGenerator', 'generate_code_for_loop_unpack'), (None, 'indent')], 'CodegenGen', {'STMTS_cache': H(None, [], {}, None)}, extra='Definition codegen_template_matched : bool := true.')
 
 
 def translate_kernel(kid):
@@ -318,7 +339,7 @@ def translate_kernel(kid):
         if hid not in holes:
             raise GenError(f"{kid}: template never captured hole {hid}")
         node = holes[hid]
-        captured[hid] = ast.unparse(node)
+        captured[hid] = ast.unparse(node) if not isinstance(node, list) else f"<{len(node)} statements>"
         if spec['result'] is None:
             continue
         env = {}
